@@ -285,6 +285,15 @@ func hashJobB(fn string, n, maxcpus, preempt, partB int) jobSpec {
 		Opts: interp.Options{Budget: 5_000_000, Sched: interp.SchedExplore, MaxPreempt: preempt}}
 }
 
+// hashJobL: as hashJob with file a's content calen bytes long (file ab's stays 1 byte), so that the
+// path and content of one file, written one after the other, can spell those of the other.
+func hashJobL(fn string, n, maxcpus, preempt, calen int) jobSpec {
+	j := hashJobB(fn, n, maxcpus, preempt, 1)
+	j.Params["calen"] = strconv.Itoa(calen)
+	j.Name = fmt.Sprintf("%s[n=%d cpus<=%d preemptions<=%d content_a=%d bytes]", fn, n, maxcpus, preempt, calen)
+	return j
+}
+
 var hashAssumptions = []string{
 	"scheduling: interleaving semantics on the engine's cooperative scheduler; context switches only at synchronising operations (channel send/receive/close, WaitGroup Add/Done/Wait, go statements); every choice of the next goroutine when the running one blocks or exits is explored, plus at most the stated number of preemptive switches per schedule",
 	"data races on plain memory are not modelled (no happens-before tracking): the 'racing on memory' clause of C18 is not decided",
@@ -319,18 +328,18 @@ func init() {
 			"(B) dropping a file, adding a file, renaming a file (also to a name that is a prefix extension, also with identical content) or editing a file's (symbolic) content changes the digest, and re-writing the same bytes does not.",
 		Bounds: func(tier string) string {
 			if tier == "thorough" {
-				return "lists of length 1..3 over a pool of 5 entries (names a, ab, sub/b, an empty file, a directory; duplicates allowed): length 1 with 1..3 CPUs and 1 preemption; length 2 with 1..2 CPUs (A and B, no preemption; A only with 1 preemption) and with one worker and 1 preemption; length 3 with 1..2 CPUs part A only and with one worker A and B, no preemption"
+				return "lists of length 1..3 over a pool of 5 entries (names a, ab, sub/b, an empty file, a directory; duplicates allowed): length 1 with 1..3 CPUs and 1 preemption; length 2 with 1..2 CPUs (A and B, no preemption; A only with 1 preemption) and with one worker and 1 preemption; length 3 with 1..2 CPUs part A only and with one worker A and B, no preemption; file contents: one symbolic byte each, and length 1 with one worker again with two symbolic bytes in file a (so that path+content of a can spell path+content of ab)"
 			}
-			return "lists of length 1..2 over a pool of 5 entries: length 1 with 1..2 CPUs and schedules with at most 1 preemption (parts A and B); length 2 with one worker, all blocking-point choices (A and B); length 2 with 1..2 CPUs, all blocking-point choices, part A only (reference run on one worker)"
+			return "lists of length 1..2 over a pool of 5 entries: length 1 with 1..2 CPUs and schedules with at most 1 preemption (parts A and B); length 2 with one worker, all blocking-point choices (A and B); length 2 with 1..2 CPUs, all blocking-point choices, part A only (reference run on one worker); file contents: one symbolic byte each, and length 1 with one worker again with two symbolic bytes in file a (so that path+content of a can spell path+content of ab)"
 		},
 		Outside:      []string{"SHA-256 itself (abstracted as injective, digests assumed not to look like path text)", "longer lists, more workers, more preemptions; duplicates are compared as multisets"},
 		Assumptions:  hashAssumptions,
 		EndSignature: map[string]string{"crash": "C04/panic", "budget": "C04/non-termination", "deadlock": "C04/deadlock"},
 		Jobs: func(tier string, seed int64) []jobSpec {
 			if tier == "thorough" {
-				return []jobSpec{hashJob("HashDet", 1, 3, 1), hashJob("HashDet", 2, 2, 0), hashJob("HashDet", 2, 1, 1), hashJobB("HashDet", 2, 2, 1, 0), hashJobB("HashDet", 3, 2, 0, 0), hashJob("HashDet", 3, 1, 0)}
+				return []jobSpec{hashJob("HashDet", 1, 3, 1), hashJob("HashDet", 2, 2, 0), hashJob("HashDet", 2, 1, 1), hashJobB("HashDet", 2, 2, 1, 0), hashJobB("HashDet", 3, 2, 0, 0), hashJob("HashDet", 3, 1, 0), hashJobL("HashDet", 1, 1, 0, 2)}
 			}
-			return []jobSpec{hashJob("HashDet", 1, 2, 1), hashJob("HashDet", 2, 1, 0), hashJobB("HashDet", 2, 2, 0, 0)}
+			return []jobSpec{hashJob("HashDet", 1, 2, 1), hashJob("HashDet", 2, 1, 0), hashJobB("HashDet", 2, 2, 0, 0), hashJobL("HashDet", 1, 1, 0, 2)}
 		},
 	})
 }
